@@ -395,9 +395,12 @@ def solve(ob, timeout_ms=20000):
         g = z3.BoolVal(False)
     # portfolio: E-matching only first (fast and stable), then z3's default configuration (MBQI on)
     r = z3.unknown
-    for (mbqi, tmo) in ((False, max(2000, timeout_ms // 4)), (True, timeout_ms)):
+    for (mbqi, tmo, seed) in ((False, max(2000, timeout_ms // 4), 0), (True, timeout_ms // 2, 0),
+                              (False, timeout_ms // 2, 11), (True, timeout_ms, 5)):
         s = z3.Solver()
         s.set("timeout", tmo)
+        if seed:
+            s.set("smt.random_seed", seed)
         if not mbqi:
             s.set("auto_config", False)
             s.set("smt.mbqi", False)
